@@ -37,7 +37,9 @@ Del(f, K) == [x \in DOMAIN f \ K |-> f[x]]
 (* keys[k] \in {"out","bound","relReq","relAnn"}; kapp[k] = application; apps/nodes: "accepted"/"removed".   *)
 SV0 == [keys |-> EmptyF, kapp |-> EmptyF, apps |-> EmptyF, nodes |-> EmptyF]
 ShimOp(v, e) ==
-   CASE e.op \in {"reset", "restart"} -> SV0
+   CASE e.op = "reset" -> SV0
+     \* after a crash the shim re-submits what it knows: every key is outstanding again until the new core announces it
+     [] e.op = "restart" -> [SV0 EXCEPT !.keys = [k \in DOMAIN e.asks |-> "out"], !.kapp = [k \in DOMAIN e.asks |-> e.asks[k].app]]
      [] e.op \in {"addAsk", "reportBound", "updateAsk"} ->
             IF e.key \in DOMAIN v.keys THEN v
             ELSE [v EXCEPT !.keys = Upd(v.keys, e.key, "out"), !.kapp = Upd(v.kapp, e.key, e.app)]
@@ -71,10 +73,10 @@ OneMsg(acc, m, e) == LET v == acc[1]
           <<IF e.op \in {"addAsk", "reportBound", "updateAsk"} /\ m.key = e.key /\ m.key \in DOMAIN v.keys /\ v.kapp[m.key] = e.app
                 /\ ~(\E j \in 1..Len(e.msgs) : e.msgs[j].t = "alloc" /\ e.msgs[j].key = m.key)
              THEN [v EXCEPT !.keys = Del(v.keys, {m.key})] ELSE v, c>>
-     [] m.t = "appAccepted" -> <<[v EXCEPT !.apps = Upd(v.apps, m.app, "accepted")], IF e.op = "addApp" /\ e.app = m.app THEN c ELSE c \cup {<<"unsolicited", m.app>>}>>
-     [] m.t = "appRejected" -> <<v, IF e.op = "addApp" /\ e.app = m.app THEN c ELSE c \cup {<<"unsolicited", m.app>>}>>
-     [] m.t = "nodeAccepted" -> <<[v EXCEPT !.nodes = Upd(v.nodes, m.node, "accepted")], IF e.op = "addNode" /\ e.node = m.node THEN c ELSE c \cup {<<"unsolicitedNode", m.node>>}>>
-     [] m.t = "nodeRejected" -> <<v, IF e.op = "addNode" /\ e.node = m.node THEN c ELSE c \cup {<<"unsolicitedNode", m.node>>}>>
+     [] m.t = "appAccepted" -> <<[v EXCEPT !.apps = Upd(v.apps, m.app, "accepted")], IF (e.op = "addApp" /\ e.app = m.app) \/ e.op \in {"restart", "bad"} THEN c ELSE c \cup {<<"unsolicited", m.app>>}>>
+     [] m.t = "appRejected" -> <<v, IF (e.op = "addApp" /\ e.app = m.app) \/ e.op \in {"restart", "bad"} THEN c ELSE c \cup {<<"unsolicited", m.app>>}>>
+     [] m.t = "nodeAccepted" -> <<[v EXCEPT !.nodes = Upd(v.nodes, m.node, "accepted")], IF (e.op = "addNode" /\ e.node = m.node) \/ e.op \in {"restart", "bad"} THEN c ELSE c \cup {<<"unsolicitedNode", m.node>>}>>
+     [] m.t = "nodeRejected" -> <<v, IF (e.op = "addNode" /\ e.node = m.node) \/ e.op \in {"restart", "bad"} THEN c ELSE c \cup {<<"unsolicitedNode", m.node>>}>>
      [] OTHER -> acc
 RECURSIVE FoldMsgs(_, _, _, _)
 FoldMsgs(acc, ms, i, e) == IF i > Len(ms) THEN acc ELSE FoldMsgs(OneMsg(acc, ms[i], e), ms, i + 1, e)
@@ -87,8 +89,8 @@ AfterStep(v, e) ==
        nanswers == Cardinality({i \in 1..Len(e.msgs) : e.msgs[i].t \in {"nodeAccepted", "nodeRejected"}}) IN
    <<fin, r[2] \cup (IF e.op = "addApp" /\ e.panic = "" /\ answers # 1 THEN {<<"answers", answers>>} ELSE {})
                \cup (IF e.op = "addNode" /\ nanswers # 1 THEN {<<"nodeanswers", nanswers>>} ELSE {})
-               \cup (IF e.op \notin {"addApp"} /\ answers # 0 THEN {<<"answers", answers>>} ELSE {})
-               \cup (IF e.op \notin {"addNode"} /\ nanswers # 0 THEN {<<"nodeanswers", nanswers>>} ELSE {})>>
+               \cup (IF e.op \notin {"addApp", "restart", "bad"} /\ answers # 0 THEN {<<"answers", answers>>} ELSE {})
+               \cup (IF e.op \notin {"addNode", "restart", "bad"} /\ nanswers # 0 THEN {<<"nodeanswers", nanswers>>} ELSE {})>>
 
 (* ====================================================================== history variables *)
 QChanged(pre, post, field) == {q \in QueuesOf(pre) \cap QueuesOf(post) : pre.queues[q][field] # post.queues[q][field]}
@@ -128,6 +130,7 @@ Accepted == TLCGet("stats").diameter = Len(Trace)
 
 Step == l > 1 /\ ~IsReset(l)
 E == Trace[l]
+s_live(s, a) == s.apps[a].state \in {"New", "Accepted", "Running", "Completing", "Resuming"}
 Pre == St(l - 1)
 Post == St(l)
 PreAsk(pre, m) == IF m.app \in AppsOf(pre) /\ m.key \in DOMAIN pre.apps[m.app].asks THEN pre.apps[m.app].asks[m.key]
@@ -255,7 +258,7 @@ C09_Step == \A m \in SchedAllocs : m.node \in NodesOf(Pre) =>
 C09_Released == Step => \A m \in SchedAllocs : \A n \in NodesOf(Post) : m.key \notin ToSet(Post.nodes[n].resv)
 
 (* ====================================================================== C10 *)
-PrevState(a) == IF Step /\ a \in AppsOf(Pre) THEN Pre.apps[a].state ELSE "New"
+PrevState(a) == IF Step /\ E.op # "restart" /\ a \in AppsOf(Pre) THEN Pre.apps[a].state ELSE "New"
 C10_Transitions == LET s == St(l) IN \A a \in AppsOf(s) :
       LET lg == <<PrevState(a)>> \o s.apps[a].newlog IN
       /\ \A i \in 1..(Len(lg) - 1) : <<lg[i], lg[i+1]>> \in AllowedTransitions
@@ -277,6 +280,28 @@ C11_Counts == MaxAppsCounts(St(l), low)
 C11_Step == \A m \in SchedAllocs : (m.app \in AppsOf(Pre) /\ Pre.apps[m.app].state = "Accepted") =>
       \A q \in Ancestors(Pre, Pre.apps[m.app].queue) : LET qu == Pre.queues[q] IN
          (qu.maxApps > 0 /\ m.app \notin ToSet(qu.allocating)) => qu.running + Len(qu.allocating) + 1 <= qu.maxApps
+
+(* ====================================================================== C12 restart recovery *)
+IsRestart == E.op = "restart" /\ E.panic = ""
+C12_NothingRejected == IsRestart => ~\E m \in Msgs(l) : m.t \in {"appRejected", "nodeRejected", "allocRejected"}
+\* per node / application / leaf queue / user the new core's totals are what the shim's knowledge implies ...
+C12_Nodes == IsRestart => LET x == E.expect.nodes
+                             n == St(l).nodes IN
+      /\ DOMAIN x = DOMAIN n
+      /\ \A k \in DOMAIN x : REq(x[k].alloc, n[k].alloc) /\ REq(x[k].occ, n[k].occ) /\ x[k].sched = n[k].sched
+C12_Apps == IsRestart => LET x == E.expect.apps
+                            n == St(l).apps IN
+      /\ DOMAIN x = DOMAIN n
+      /\ \A k \in DOMAIN x : REq(x[k].alloc, n[k].alloc) /\ REq(x[k].phAlloc, n[k].phAlloc) /\ REq(x[k].pending, n[k].pending)
+\* ... and, when nothing was in flight at the crash, they are exactly the old core's totals
+C12_SameAsOld == (IsRestart /\ E.inflight = 0 /\ InFlightReal(E.old) = {}) => LET o == E.old
+                                                                                  n == St(l) IN
+      /\ DOMAIN o.nodes = DOMAIN n.nodes
+      /\ \A x \in DOMAIN o.nodes : REq(o.nodes[x].alloc, n.nodes[x].alloc) /\ REq(o.nodes[x].occ, n.nodes[x].occ) /\ o.nodes[x].keys = n.nodes[x].keys
+      /\ \A a \in AppsOf(o) : s_live(o, a) => (a \in AppsOf(n) /\ REq(o.apps[a].alloc, n.apps[a].alloc) /\ REq(o.apps[a].phAlloc, n.apps[a].phAlloc) /\ REq(o.apps[a].pending, n.apps[a].pending))
+      /\ \A q \in QueuesOf(o) : o.queues[q].managed => (q \in QueuesOf(n) /\ REq(o.queues[q].alloc, n.queues[q].alloc) /\ REq(o.queues[q].pending, n.queues[q].pending))
+      /\ \A u \in DOMAIN o.users : \A q \in DOMAIN o.users[u] : (~RZero(o.users[u][q].usage)) =>
+             (u \in DOMAIN n.users /\ q \in DOMAIN n.users[u] /\ REq(o.users[u][q].usage, n.users[u][q].usage))
 
 (* ====================================================================== C13 (no panic; "bad" operations: see Bad section) *)
 \* malformed requests ("bad" operations, harness/drive/bad.go): an invalid item is answered with the matching rejection and
@@ -489,6 +514,7 @@ All == /\ KFAll
        /\ Chk("C10_Transitions", C10_Transitions) /\ Chk("C10_MsgStates", C10_MsgStates) /\ Chk("C10_CompletedClean", C10_CompletedClean) /\ Chk("C10_Idle", C10_Idle)
        /\ Chk("C10_LiveHaveQueue", C10_LiveHaveQueue) /\ Chk("C10_StateTimer", C10_StateTimer) /\ Chk("C10_NoAskAfterTerm", C10_NoAskAfterTerm)
        /\ Chk("C11_Counts", C11_Counts) /\ Chk("C11_Step", C11_Step)
+       /\ Chk("C12_NothingRejected", C12_NothingRejected) /\ Chk("C12_Nodes", C12_Nodes) /\ Chk("C12_Apps", C12_Apps) /\ Chk("C12_SameAsOld", C12_SameAsOld)
        /\ Chk("C13_NoPanic", C13_NoPanic) /\ Chk("C13_BadUnchanged", C13_BadUnchanged) /\ Chk("C13_BadRejected", C13_BadRejected) /\ Chk("C13_NoHang", C13_NoHang)
        /\ Chk("C16_Rejected", C16_Rejected) /\ Chk("C16_Preserve", C16_Preserve) /\ Chk("C16_Applied", C16_Applied) /\ Chk("C16_DrainingNoNewApps", C16_DrainingNoNewApps) /\ Chk("C16_Removal", C16_Removal)
 =============================================================================
